@@ -872,4 +872,31 @@ theorem walk_emb (os : Objects) : ∀ (fuel : Nat) (t : BT) (r : List BT) (m : N
           simp only [firstId_cons, Option.map, oref, hk, hw1, outL_cons_isEmpty, BT.size, hn, hw2]
           simp [outL, outN, oref]
 
+/-! ## non-vacuity and the duplicate-title witness -/
+
+def exBm (title : List Nat) (page : ObjId) : Bm :=
+  { children := [], title := title, format := 0, color := [], page := page, id := 0 }
+
+/-- four `add_bookmark` calls, the second child of bookmark 1 arriving after bookmark 3 was started -/
+def exOps : List (Bm × Option Nat) :=
+  [(exBm [65] (3, 0), none), (exBm [66] (3, 0), some 1), (exBm [0xE9, 0x1F600] (4, 0), none), (exBm [67] (4, 0), some 1),
+   (exBm [68] (4, 0), some 9)]
+
+/-- the table built by `add_bookmark` represents the forest the calls denote (hypothesis of
+`outline_links` / `ocLoop_spec`), here with an interleaved attach and an orphan -/
+example : repL (addAll BmState.empty exOps).table (addAll BmState.empty exOps).roots (forestOfOps exOps) = true := by
+  decide
+
+example : BT.sizeL (forestOfOps exOps) = 4 := by decide
+
+/-- F-C17-a on the model: two bookmarks titled "I" under different parents; the title-keyed table of
+`setup_outline_page_ids` keeps three entries, the duplicate at the FIRST position with the page
+and level of the LAST. -/
+def dupForest : List BT :=
+  [.node 1 [65] 0 [] (3, 0) [.node 2 [73] 0 [] (3, 0) []], .node 3 [66] 0 [] (4, 0) [.node 4 [73] 0 [] (4, 0) []]]
+
+theorem toc_duplicate_titles_collapse :
+    setupIdsL 1 (outL dupForest) [] = some [([65], (3, 0), 1), ([73], (4, 0), 2), ([66], (4, 0), 1)] := by
+  decide
+
 end Lopdf
